@@ -343,6 +343,9 @@ class HdlcFrameReader(MeterReaderBase[HdlcFrame]):
                 self._start_frame()
                 self._buffer.trim_buffer_to_current_position()
 
+        # All buffered octets are consumed at this point.
+        self._buffer.trim_buffer_to_current_position()
+
         return frames_received
 
     def _read_next(self) -> bool:
